@@ -22,6 +22,47 @@ pub fn snf_small(s: &mut Src) -> R {
     Ok(())
 }
 
+/// C09 on arbitrary shapes (BOUNDED, sampled): m, n in 0..=5 incl. non-square and empty matrices, entries in -40..=40 with many zeros:
+/// D = P A Q, two-sided inverses, D diagonal, normalised, non-zero entries first, each dividing the next; the number of non-zero entries of D
+/// is the rank of A (fraction-free elimination here); every combination of requested transforms gives the same D.
+pub fn snf_shapes(s: &mut Src) -> R {
+    use yui_matrix::MatTrait;
+    let (m, n) = (s.small(0, 5) as usize, s.small(0, 5) as usize);
+    let mut e = vec![0i64; 25];
+    for x in e.iter_mut() { let v = s.small(-60, 60); *x = if v.abs() > 40 { 0 } else { v }; }
+    let flags = [s.bool(), s.bool(), s.bool(), s.bool()];
+    reach!();
+    // arbitrary-precision coefficients: over i64 the Gram determinants of the LLL preprocessing overflow already for 5 x 5 matrices with
+    // two-digit entries (machine arithmetic, not a defect of the algorithm); the property asks for no panic with arbitrary precision
+    use num_bigint::BigInt;
+    use num_traits::{Zero, Signed};
+    let data: Vec<BigInt> = (0..m).flat_map(|i| (0..n).map(move |j| (i, j))).map(|(i, j)| BigInt::from(e[i * 5 + j])).collect();
+    let a = Mat::from_data((m, n), data);
+    let r = snf(&a, [true; 4]);
+    let d = r.result().clone();
+    let (p, pinv, q, qinv) = (r.p().unwrap(), r.pinv().unwrap(), r.q().unwrap(), r.qinv().unwrap());
+    ob!(d.shape() == (m, n) && p.shape() == (m, m) && q.shape() == (n, n), "snf::shapes");
+    ob!(&(p * &a) * q == d, "snf::D==P.A.Q");
+    ob!(p * pinv == Mat::id(m) && pinv * p == Mat::id(m) && q * qinv == Mat::id(n) && qinv * q == Mat::id(n), "snf::two-sided-inverses");
+    ob!(d.is_diag(), "snf::D-is-diagonal");
+    let k = m.min(n);
+    let v: Vec<BigInt> = (0..k).map(|i| d[(i, i)].clone()).collect();
+    ob!(v.iter().all(|x| !x.is_negative()), "snf::diagonal-normalised");
+    ob!((1..k).all(|i| !(v[i - 1].is_zero() && !v[i].is_zero())), "snf::non-zero-entries-first");
+    ob!((1..k).all(|i| v[i].is_zero() || (&v[i] % &v[i - 1]).is_zero()), "snf::each-entry-divides-the-next");
+    // rank by fraction-free elimination on i128
+    let mut w: Vec<Vec<i128>> = (0..m).map(|i| (0..n).map(|j| e[i * 5 + j] as i128).collect()).collect();
+    let (mut rank, mut prev) = (0usize, 1i128);
+    for c in 0..n { if rank == m { break; } if let Some(pr) = (rank..m).find(|&i| w[i][c] != 0) { w.swap(rank, pr); for i in rank + 1..m { for j in c + 1..n { w[i][j] = (w[i][j] * w[rank][c] - w[i][c] * w[rank][j]) / prev; } w[i][c] = 0; } prev = w[rank][c]; rank += 1; } }
+    ob!(v.iter().filter(|x| !x.is_zero()).count() == rank, "snf::number-of-invariant-factors==rank");
+    let r2 = snf(&a, flags);
+    ob!(*r2.result() == d, "snf::D-independent-of-requested-transforms");
+    ob!(r2.p().is_some() == flags[0] && r2.pinv().is_some() == flags[1] && r2.q().is_some() == flags[2] && r2.qinv().is_some() == flags[3], "snf::returns-exactly-the-requested-transforms");
+    if flags[0] && flags[2] { ob!(&(r2.p().unwrap() * &a) * r2.q().unwrap() == d, "snf[flags]::D==P.A.Q"); }
+    if flags[1] && flags[3] { ob!(&(r2.pinv().unwrap() * &d) * r2.qinv().unwrap() == a, "snf[flags]::Pinv.D.Qinv==A"); }
+    Ok(())
+}
+
 /// the same over Z[i] (units other than +-1 exercise the inverse bookkeeping): 2x2, small entries
 pub fn snf_gauss_small(s: &mut Src) -> R {
     use yui::GaussInt;
@@ -380,4 +421,4 @@ pub fn snf_mat_ops(s: &mut Src) -> R {
     }
     Ok(())
 }
-crate::harness_table!(SNF: snf_small [unwind 4], snf_gauss_small [unwind 4], trans_small [unwind 4], lll_small [unwind 4], snf_mat_ops [unwind 4], lll_rows45 [unwind 4], spmat_ops_small [unwind 4], spvec_mat_ops_small [unwind 4]);
+crate::harness_table!(SNF: snf_small [unwind 4], snf_gauss_small [unwind 4], trans_small [unwind 4], lll_small [unwind 4], snf_mat_ops [unwind 4], lll_rows45 [unwind 4], spmat_ops_small [unwind 4], spvec_mat_ops_small [unwind 4], snf_shapes [unwind 4]);
